@@ -77,7 +77,9 @@ class SimWriter:
             self.pending.clear()
 
     def fileno(self):
-        return self.raw.fileno()
+        # no descriptor is handed out: code that wants one (sendfile / copy_file_range fast paths) falls
+        # back to write(), which is what the shim observes
+        raise io.UnsupportedOperation("fileno")
 
     def writable(self):
         return True
